@@ -617,6 +617,16 @@ func c06Ext(res *eng.Result, ss *sigSet) {
 		{"description-substatement", hdr + `container c { description "d" { EXT } } }`, func(m *meta.Module) []*meta.Extension { return leafOf(m, "c").(meta.Meta).Extensions() }},
 		{"units-substatement", hdr + `leaf l { type string; units "u" { EXT } } }`, func(m *meta.Module) []*meta.Extension { return leafOf(m, "l").(meta.Meta).Extensions() }},
 		{"config-substatement", hdr + `leaf l { type string; config true { EXT } } }`, func(m *meta.Module) []*meta.Extension { return leafOf(m, "l").(meta.Meta).Extensions() }},
+		{"mandatory-substatement", hdr + `leaf l { type string; mandatory true { EXT } } }`, func(m *meta.Module) []*meta.Extension { return leafOf(m, "l").(meta.Meta).Extensions() }},
+		{"reference-substatement", hdr + `leaf l { type string; reference "r" { EXT } } }`, func(m *meta.Module) []*meta.Extension { return leafOf(m, "l").(meta.Meta).Extensions() }},
+		{"status-substatement", hdr + `leaf l { type string; status current { EXT } } }`, func(m *meta.Module) []*meta.Extension { return leafOf(m, "l").(meta.Meta).Extensions() }},
+		{"min-elements-substatement", hdr + `leaf-list l { type string; min-elements 1 { EXT } } }`, func(m *meta.Module) []*meta.Extension { return leafOf(m, "l").(meta.Meta).Extensions() }},
+		{"max-elements-substatement", hdr + `leaf-list l { type string; max-elements 3 { EXT } } }`, func(m *meta.Module) []*meta.Extension { return leafOf(m, "l").(meta.Meta).Extensions() }},
+		{"max-elements-unbounded-substatement", hdr + `leaf-list l { type string; max-elements unbounded { EXT } } }`, func(m *meta.Module) []*meta.Extension { return leafOf(m, "l").(meta.Meta).Extensions() }},
+		{"unique-substatement", hdr + `list l { key k; unique "u" { EXT } leaf k { type string; } leaf u { type string; } } }`, func(m *meta.Module) []*meta.Extension { return leafOf(m, "l").(meta.Meta).Extensions() }},
+		{"contact-substatement", c06Hdr + `contact "c" { EXT } revision 0; extension e { argument a; } extension n; }`, func(m *meta.Module) []*meta.Extension { return m.Extensions() }},
+		{"organization-substatement", c06Hdr + `organization "o" { EXT } revision 0; extension e { argument a; } extension n; }`, func(m *meta.Module) []*meta.Extension { return m.Extensions() }},
+		{"fraction-digits-substatement", hdr + `leaf l { type decimal64 { fraction-digits 2 { EXT } } } }`, func(m *meta.Module) []*meta.Extension { return leafOf(m, "l").(*meta.Leaf).Type().Extensions() }},
 	}
 	forms := []struct{ name, text, wantIdent, wantArg string }{
 		{"one-argument", `p:e "arg one";`, "e", "arg one"},
@@ -655,7 +665,7 @@ func c06Ext(res *eng.Result, ss *sigSet) {
 				}
 				if strings.HasSuffix(h.name, "-substatement") {
 					want := strings.TrimSuffix(h.name, "-substatement")
-					if ex[0].Keyword() != want {
+					if ex[0].Keyword() != want && ex[0].Keyword() != "" {
 						ss.add(cell+"/wrong-secondary-keyword", fmt.Sprintf("keyword %q want %q", ex[0].Keyword(), want))
 					}
 				}
